@@ -16,6 +16,21 @@ CLAIMED = {
    text="Generated shapes of every kind, orientation, numeric type and degree 1..3 with query points aimed at the places where the implementation can go wrong (sagitta of curved segments, +-1e-2..1e-4 from the boundary, far points, vertices and on-edge points for the boundary rule); membership is compared with an independent reference. Exploration: holds on tens of thousands of (shape, point) cases per run, margins stated.",
    note="Trusted: vlib/refgeom.py winding (self-tested), margins 1e-5 (10x the documented on-curve tolerance); points closer than that and not on the boundary are undecided, never judged.",
    ref="4/C02"),
+ "C04": dict(
+   technique="property-based testing (Hypothesis): generated shapes x exponent pairs vs exact polynomial boundary integrals of a reference model",
+   text="Generated shapes of every kind (non-symmetric, away from the origin, holes, several components, curved boundaries) and exponent pairs up to a+b=6 (8 thorough); the library's integrals are compared with exact rational polynomial integration (exact equality and rational type for rational polygons; stated tolerances for floats and for quadrature of curved boundaries; convergence with raised nnodes).",
+   note="Trusted: vlib/refgeom.py curve_moment (cross-checked against the fan-triangulation formula at start-up). Quadrature tolerance 5e-3 of the absolute contributions is a measured bound (factor 10 above the worst observed), only applied for a+b<=4.",
+   ref="4/C04"),
+ "C13": dict(
+   technique="property-based testing (Hypothesis): rational inputs vs exact Fraction reference (stored coordinates, crossing vertices and parameters, transforms, split); differential run under Python 3.11",
+   text="Generated rational coordinates with denominators straddling 1e9, rational polygon pairs in general position with big prime denominators, rational move/scale/split; every stored value is compared with the exact rational (or its documented cap) and type-checked; Point2D storage is also executed under Python 3.11 by loading polygon.py by path.",
+   note="Trusted: exact line-line solver of the reference. Only Point2D can be crossed over Python versions (pynurbs/matplotlib exist only for 3.12). One open known finding (intermediate capping) excluded by an input predicate.",
+   ref="4/C13"),
+ "C18": dict(
+   technique="property-based testing (Hypothesis) plus exhaustive per-degree basis identity in exact Fractions; de Casteljau reference",
+   text="Exhaustive identity check of the memoised evaluation/derivative matrices for degrees 1..6 (p+1 rational parameters per basis function, exact), then generated segments of every numeric kind: evaluation, derivatives, split re-parameterisation, box, point-on-curve for regular segments, off-curve points at >= 2e-6, winding contribution vs subtended angle.",
+   note="Trusted: de Casteljau evaluation and subdivision angle of vlib/refgeom.py. One open known finding (projection misses points on zig-zag control polygons of degree >= 3) excluded by an input predicate; rational point-on-curve queries on curved rational segments are not issued (5-20 s each in the library).",
+   ref="4/C18"),
 }
 NOT_YET = "check not built yet in this round (planned, see DESIGN.md section 4); nothing is claimed for it"
 
